@@ -27,7 +27,7 @@ def calibrate():
 
 
 def strategy(tier):
-    return Lm.case_st(tier)
+    return Lm.case_st(tier, scopes=True)
 
 
 def budget(tier):
@@ -65,6 +65,8 @@ def classes(case, exp):
         cl.append("two-edits-one-block")
     if any(not case.blocks[e.b].code for e in case.edits):
         cl.append("edit-in-data-block")
+    if any(e.scope for e in case.edits):
+        cl.append("register_insert-scope")
     if any(case.dropped.values()):
         cl.append("some-edits-dropped")
     return cl
